@@ -1,6 +1,7 @@
 pub mod engine;
 pub mod evidence;
 pub mod findings;
+pub mod golden;
 pub mod model;
 pub mod gen;
 pub mod props;
